@@ -140,8 +140,7 @@ def m2(ctx):
                               "metadata object from the repository on every access)" % f.short))
     # _save forwards to the callback
     sv = ctx.own_method(FILE_MD, "_save")
-    fw = any(isinstance(n, ast.Call) and dotted(n.func) == "self._save_cb" and n.args and dotted(n.args[0]) == "self._configparser"
-             for n in walk_local(sv.node))
+    fw = bool(_callback_calls(ctx, sv, need_parser=True))
     obs.append(ctx.ob(fw, sv.qualname, sv.where, "_save forwards the parser to the callback", "self._save_cb(self._configparser, message)",
                       "FileBasedCollectionMetadata._save no longer calls the save callback with the parser"))
     # construction sites pass a saving callback
@@ -596,6 +595,31 @@ def m13(ctx):
     return obs
 
 
+def _callback_calls(ctx, sv, need_parser=False):
+    """CFG nodes of _save that call the save callback: `self._save_cb(...)`, or a local bound to it."""
+    cfg = ctx.cfg(sv)
+    du = DefUse(cfg)
+    out = []
+    for n in cfg.stmt_nodes():
+        for c in n.calls():
+            is_cb = dotted(c.func) == "self._save_cb"
+            if not is_cb and isinstance(c.func, ast.Name):
+                os_ = origins(du, n, c.func)
+                is_cb = bool(os_) and all(o.kind == "expr" and not o.path and dotted(o.leaf) == "self._save_cb" for o in os_)
+            if is_cb and (not need_parser or (c.args and dotted(c.args[0]) == "self._configparser")):
+                out.append(n)
+    return out
+
+
+def _is_callback_expr(du, node, e) -> bool:
+    if isinstance(e, ast.Attribute) and e.attr == "_save_cb":
+        return True
+    if isinstance(e, ast.Name):
+        os_ = origins(du, node, e)
+        return bool(os_) and all(o.kind == "expr" and not o.path and dotted(o.leaf) == "self._save_cb" for o in os_)
+    return False
+
+
 @rule("C15", "M14", floor=1, kind="S",
       desc="every acknowledged change of the metadata file is saved: FileBasedCollectionMetadata._save hands the parser to the "
            "save callback on every path - a shortcut for an 'empty' configuration acknowledges the removal of the last "
@@ -603,7 +627,8 @@ def m13(ctx):
 def m14(ctx):
     fi = ctx.own_method("xandikos.store.config.FileBasedCollectionMetadata", "_save")
     cfg = ctx.cfg(fi)
-    calls = [n for n in cfg.stmt_nodes() for c in n.calls() if (dotted(c.func) or "").startswith("self._save") or (dotted(c.func) or "") == "self._save_cb"]
+    calls = _callback_calls(ctx, fi)
+    du = DefUse(cfg)
     if not calls:
         raise AnalysisError("FileBasedCollectionMetadata._save: call of the save callback not found")
     blocked = [(c, m, l) for c in calls for m, l in c.succ if l != "exc"]
@@ -616,10 +641,10 @@ def m14(ctx):
         if isinstance(e, ast.UnaryOp) and isinstance(e.op, ast.Not):
             e, neg = e.operand, True
         absent_label = None
-        if isinstance(e, ast.Compare) and len(e.ops) == 1 and isinstance(e.left, ast.Attribute) and e.left.attr == "_save_cb" \
+        if isinstance(e, ast.Compare) and len(e.ops) == 1 and _is_callback_expr(du, t, e.left) \
                 and isinstance(e.comparators[0], ast.Constant) and e.comparators[0].value is None:
             absent_label = "t" if isinstance(e.ops[0], ast.Is) else "f"
-        elif isinstance(e, ast.Attribute) and e.attr == "_save_cb":
+        elif _is_callback_expr(du, t, e):
             absent_label = "f"
         if absent_label is not None:
             if neg:
